@@ -1119,7 +1119,8 @@ def _run_body(chk: Check, rng: common.Rng, thorough: bool, specs: list, dirs: li
         "scan: all for/comprehension/list()/sorted()/pop() over sets, identity-keyed dicts, module registries "
         "and all hash()/id() calls in 9 anchored files (exhaustive, syntactic). Correspondence: seeded histories "
         "of naming/memo/registry operations and random elementwise forests x 3 visiting orders; non-trivial = "
-        "repeated bases/keys, >1 node. Exports: catalogue of 19 programs + 4 failing ones x forced set orders "
+        "repeated bases/keys, >1 node. Exports: catalogue of 22 programs + 6 failing ones (two fail inside a "
+        "function-body build) x forced set orders "
         "(non-trivial = some scanned site enumerated >= 2 elements) and x subprocesses (hash seeds x histories x "
         "allocation noise x gc x malloc x plugin pre-import); non-trivial = not first in its history")
     chk.coverage["exhaustive"] = False
